@@ -30,9 +30,47 @@ pub struct TornCase {
     /// ones in between instead of all of them
     #[serde(default)]
     pub sample: bool,
+    /// 0: the archive is built in memory. 1: it is first written to a scratch stream and
+    /// reopened, so that every tile is reader-backed when the recorded save happens. 2: as 1,
+    /// and `extra` in-memory tiles are added to the reopened archive before the recorded save.
+    #[serde(default)]
+    pub reopen: u8,
+    #[serde(default)]
+    pub extra: Vec<crate::case::Tile>,
 }
 
 pub struct TornWrite;
+
+/// Performs the recorded save of a case: (complete image, operation log).
+fn recorded_save(c: &TornCase, ctx: &mut Ctx) -> V<Result<(Vec<u8>, Vec<Op>), String>> {
+    let mut pm = sut::build(&c.a)?;
+    if c.reopen != 0 {
+        let mut scratch = SimDisk::plain(Vec::new());
+        if let Err(e) = sut::save(pm, &mut scratch, Face::Sync)? {
+            return Ok(Err(format!("scratch save failed: {e}")));
+        }
+        pm = match sut::open(SimDisk::plain(scratch.image()), c.face)? {
+            Ok(p) => p,
+            Err(e) => return Ok(Err(format!("reopening the scratch image failed: {e}"))),
+        };
+        for t in &c.extra {
+            if let Err(e) = pm.add_tile(t.id, t.c.bytes()) {
+                return Ok(Err(format!("add_tile on the reopened archive failed: {e}")));
+            }
+        }
+        ctx.bump(if c.extra.is_empty() { "saves_of_reader_backed_archives" } else { "saves_of_mixed_reader_backed_and_memory_archives" }, 1);
+    }
+    let pol = Policy { rd: Xfer::Full, wr: Xfer::Full, pend: c.pend, seed: c.seed };
+    let mut out = SimDisk::new(Vec::new(), &pol).recording(true);
+    pmtiles2::verif::set_scramble_seed(Some(c.seed));
+    let r = sut::save(pm, &mut out, c.face);
+    pmtiles2::verif::set_scramble_seed(None);
+    ctx.absorb(&out);
+    if let Err(e) = r? {
+        return Ok(Err(e.to_string()));
+    }
+    Ok(Ok((out.image(), out.take_log())))
+}
 
 fn crash_points(n: usize, sample: bool, seed: u64) -> Vec<usize> {
     if !sample || n <= 800 {
@@ -71,7 +109,21 @@ impl Scenario for TornWrite {
     fn rule(&self) -> String {
         "archive (root-only / leaf spill, 4 codecs, sync/async writer) written once on a fresh non-fragmenting disk with data recording; for every k in [0, N] the image after the first k recorded operations is rebuilt and handed to PMTiles::from_bytes; each evaluation = one crash point; distinct = distinct (case, k); non-trivial = 0 < k < N".into()
     }
-    fn generate(&self, rng: &mut Rng, tier: Tier, _run: u64) -> Value {
+    fn generate(&self, rng: &mut Rng, tier: Tier, run: u64) -> Value {
+        if run < 4 {
+            // runs 0-3: archives with more than 16 MiB (runs 0, 1) / 64 MiB (2, 3) of tile data:
+            // a few multi-megabyte tiles next to small ones; built in memory or reader-backed
+            let ic = 1 + rng.below(4) as u8;
+            let mut a = draw_archive(rng, SizeClass::Tens, if ic == 1 { 2 } else { ic });
+            let (n, each) = if run < 2 { (9u32, 2u32 << 20) } else { (4, 17 << 20) };
+            let mut id = a.tiles.iter().map(|t| t.id).max().map_or(0, |m| m + 1);
+            for i in 0..n {
+                a.tiles.push(crate::case::Tile { id, c: crate::case::Cont { k: 4, seed: i, len: each + 1 + rng.below(70_000) as u32 } });
+                id += 1 + rng.below(5);
+            }
+            let face = if run % 2 == 0 { Face::Sync } else { Face::Async };
+            return to_value(&TornCase { a, face, pend: Pend::NEVER, seed: rng.next_u64(), only_k: None, sample: false, reopen: if rng.chance(50) { 1 } else { 0 }, extra: Vec::new() });
+        }
         let huge = rng.chance(if tier == Tier::Quick { 3 } else { 5 });
         let ic = if huge { *rng.pick(&[2u8, 4, 2, 4, 3]) } else { 1 + rng.below(4) as u8 };
         let size = if huge {
@@ -85,24 +137,33 @@ impl Scenario for TornWrite {
         let face = Face::draw(rng);
         let pend = if face == Face::Async && rng.chance(60) { Pend { rate: 50, burst: 2, inline: 50, ctl: true } } else { Pend::NEVER };
         if rng.chance(2) {
-            return to_value(&TornCase { a: draw_archive(rng, SizeClass::Huge, 1), face, pend, seed: rng.next_u64(), only_k: None, sample: true });
+            return to_value(&TornCase { a: draw_archive(rng, SizeClass::Huge, 1), face, pend, seed: rng.next_u64(), only_k: None, sample: true, reopen: 0, extra: Vec::new() });
         }
-        to_value(&TornCase { a: draw_archive(rng, size, ic), face, pend, seed: rng.next_u64(), only_k: None, sample: false })
+        let a = draw_archive(rng, size, ic);
+        // a third of the saves are saves of an archive that was opened from a reader (every tile
+        // reader-backed), half of those with a few in-memory tiles added after the open
+        let seed = rng.next_u64();
+        let mut reopen = 0u8;
+        let mut extra = Vec::new();
+        if seed % 3 == 0 && !huge {
+            reopen = 1;
+            if (seed >> 8) % 2 == 0 {
+                reopen = 2;
+                let mut r = Rng::new(seed ^ 0xE47A);
+                for _ in 0..1 + r.below(4) {
+                    let id = if r.chance(50) || a.tiles.is_empty() { r.below(2000) } else { a.tiles[r.usize_below(a.tiles.len())].id.saturating_add(r.below(3)) };
+                    extra.push(crate::case::Tile { id: id.min(crate::spec::max_valid_id()), c: crate::case::Cont { k: 0, seed: r.below(1 << 20) as u32, len: 1 + r.below(300) as u32 } });
+                }
+            }
+        }
+        to_value(&TornCase { a, face, pend, seed, only_k: None, sample: false, reopen, extra })
     }
     fn execute(&self, case: &Value, ctx: &mut Ctx) -> V<()> {
         let c: TornCase = from_value(case);
-        let pm = sut::build(&c.a)?;
-        let pol = Policy { rd: Xfer::Full, wr: Xfer::Full, pend: c.pend, seed: c.seed };
-        let mut out = SimDisk::new(Vec::new(), &pol).recording(true);
-        pmtiles2::verif::set_scramble_seed(Some(c.seed));
-        let r = sut::save(pm, &mut out, c.face);
-        pmtiles2::verif::set_scramble_seed(None);
-        ctx.absorb(&out);
-        if let Err(e) = r? {
-            vio!("C17:save-failed", "writing a valid archive on a fault-free stream failed: {e}");
-        }
-        let complete = out.image();
-        let log = out.take_log();
+        let (complete, log) = match recorded_save(&c, ctx)? {
+            Ok(x) => x,
+            Err(e) => vio!("C17:save-failed", "writing a valid archive on a fault-free stream failed: {e}"),
+        };
         let n = log.len();
         ctx.bump("recorded_ops_total", n as u64);
         let ks: Vec<usize> = match c.only_k {
@@ -144,14 +205,7 @@ impl Scenario for TornWrite {
         let mut out = Vec::new();
         if c.only_k.is_none() {
             // pin the crash point: find the first k whose image opens although it is incomplete
-            if let Ok(pm) = sut::build(&c.a) {
-                let pol = Policy { rd: Xfer::Full, wr: Xfer::Full, pend: c.pend, seed: c.seed };
-                let mut d = SimDisk::new(Vec::new(), &pol).recording(true);
-                pmtiles2::verif::set_scramble_seed(Some(c.seed));
-                let _ = sut::save(pm, &mut d, c.face);
-                pmtiles2::verif::set_scramble_seed(None);
-                let complete = d.image();
-                let log = d.take_log();
+            if let Ok(Ok((complete, log))) = recorded_save(&c, &mut Ctx::default()) {
                 for k in crash_points(log.len(), c.sample, c.seed) {
                     let img = image_after(&log, k);
                     if img != complete && pmtiles2::PMTiles::from_bytes(&img[..]).is_ok() {
@@ -170,6 +224,12 @@ impl Scenario for TornWrite {
         }
         if c.pend.rate != 0 {
             out.push(to_value(&TornCase { pend: Pend::NEVER, only_k: None, ..c.clone() }));
+        }
+        if !c.extra.is_empty() {
+            out.push(to_value(&TornCase { extra: Vec::new(), reopen: 1, only_k: None, ..c.clone() }));
+        }
+        if c.reopen != 0 && c.extra.is_empty() {
+            out.push(to_value(&TornCase { reopen: 0, only_k: None, ..c.clone() }));
         }
         out
     }
